@@ -3,6 +3,7 @@ package channel
 import (
 	"bytes"
 	"errors"
+	"fmt"
 	"io"
 	"regexp"
 	"sync"
@@ -113,6 +114,7 @@ type Channel struct {
 
 	closeOnce sync.Once
 	closeErr  error
+	closed    atomic.Bool
 
 	Q              *util.Queue
 	Errs           chan error
@@ -128,6 +130,16 @@ type Channel struct {
 // Open opens the underlying Transport and begins the `read` goroutine, this also kicks off any
 // in channel authentication (if necessary).
 func (c *Channel) Open() (reterr error) {
+	if c.closed.Load() {
+		// the read loop, its signalling channels and the close bookkeeping serve one connection:
+		// opened again, the channel would fail every read, its Close would no longer close the
+		// transport or stop the new read loop, and that loop would panic when it exits
+		return fmt.Errorf(
+			"%w: channel was closed and cannot be opened again, create a new driver",
+			util.ErrConnectionError,
+		)
+	}
+
 	err := c.t.Open()
 	if err != nil {
 		c.l.Criticalf("error opening channel, error: %s", err)
@@ -193,6 +205,8 @@ func (c *Channel) Open() (reterr error) {
 // Close more than once is safe, later calls return the result of the first.
 func (c *Channel) Close() error {
 	c.closeOnce.Do(func() {
+		c.closed.Store(true)
+
 		c.closeErr = c.close()
 	})
 
